@@ -222,6 +222,7 @@ def enumerate_crash_states(root, run_create, limit=None, torn_mode="sample"):
         trace, r = record_trace(run_create, watch_prefix=os.path.abspath(root))
         post = committed_state(root)
         res["ops"] = len(trace)
+        res["trace_full"] = trace
         res["trace"] = [[o[0]] + [os.path.relpath(p, root) if isinstance(p, str) and p.startswith(root) else (p[:16] + "..." if o[0] == "write" and i == 1 else p) for i, p in enumerate(o[1:])] for o in trace]
         n = 0
         for plen, torn in crash_points(trace, torn_mode):
